@@ -111,7 +111,7 @@ class OrderCase(Case):
                 b = a
             elif k == "both":
                 a, b = env.real(f"{name}_lo_{i}", -BIG, BIG), env.real(f"{name}_hi_{i}", -BIG, BIG)
-                env.assume(b - a >= Fraction(1, 1000))
+                env.assume(b - a >= Fraction(1, 10000))
             elif k == "lower":
                 a, b = env.real(f"{name}_lo_{i}", -BIG, BIG), INF
             else:
